@@ -99,6 +99,7 @@ def requirements(tier):
         "numerical-stream-completed": 20, "state-compared:keplernum": 40,
         "scenario:shuffle": 50, "scenario:interleave": 50, "scenario:listener-reuse": 30, "listener-reuse:dates-mode": 10, "listener-reuse:range-mode": 10, "scenario:inplace-edit": 30,
         "scenario:shared-propagator-sequential": 20, "scenario:shared-propagator-interleaved": 20,
+        "scenario:edit-returned-state": 30, "returned-state-edit:values": 100, "returned-state-edit:form": 30, "returned-state-edit:frame": 30,
         "scenario:copy-made": 30, "scenario:cold-cache": 20, "scenario:generator-interleave": 20,
         "history-compared-bitwise": 2000,
     })
@@ -1143,11 +1144,11 @@ def history_case(ctx, job, idx, rng, st):
         i1 = rng.randrange(i0, len(offs))
         qs = [("i", {"type": "own"}), ("i", {"type": "own", "start": offs[i0], "stop": offs[i1]})] + qs
     scenarios = ["shuffle", "interleave", "listener-reuse", "inplace-edit", "shared-propagator-sequential",
-                 "shared-propagator-interleaved", "copy-made", "generator-interleave"]
+                 "shared-propagator-interleaved", "copy-made", "generator-interleave", "edit-returned-state"]
     if frames_job:
         scenarios = ["cold-cache", "cold-cache", "shuffle", "interleave"]
     if is_ephem:
-        scenarios = ["shuffle", "interleave", "listener-reuse", "generator-interleave"]
+        scenarios = ["shuffle", "interleave", "listener-reuse", "generator-interleave", "edit-returned-state"]
     if kind in ("none", "cw"):
         scenarios = [s for s in scenarios if s != "listener-reuse"]
     if numerical:
@@ -1255,6 +1256,36 @@ def history_case(ctx, job, idx, rng, st):
                 return
             compare_answers(ctx, kind, spec, ref[j], got, f"C08/{bk}-result-depends-on-interleaved-{act}",
                             dict(witness, interleaved=act, query=qdescr(qs[j], clock)), f"after unrelated call '{act}'")
+    elif scen == "edit-returned-state":
+        # what propagate()/iter() hand out belongs to the caller: editing it in place (numbers, form, frame, metadata)
+        # must not show in what the same object answers afterwards
+        obj = fresh()
+        for rep in range(2):
+            order = list(range(len(qs)))
+            rng.shuffle(order)
+            for j in order:
+                got = safe_answer(obj, qs[j], f"edit-returned-state pass #{rep}")
+                if got is None:
+                    return
+                compare_answers(ctx, kind, spec, ref[j], got, f"C08/{bk}-result-depends-on-edits-of-returned-states",
+                                dict(witness, query=qdescr(qs[j], clock), repetition=rep), "after earlier results were edited in place")
+                items = got if isinstance(got, list) else [got]
+                for it_ in items:
+                    how = rng.choice(["values", "values", "form", "frame", "metadata"])
+                    ctx.count("returned-state-edit:" + how)
+                    try:
+                        if how == "values":
+                            it_[:] = np.asarray(it_) * 1.5 + 1.0
+                        elif how == "form":
+                            it_.form = "spherical" if it_.form.name != "spherical" else "cartesian"
+                        elif how == "frame" and kind not in ("cw",) and not frames_job:
+                            it_.frame = "MOD" if str(it_.frame) != "MOD" else "EME2000"
+                        else:
+                            it_.name = "edited"
+                            if it_.maneuvers:
+                                it_.maneuvers.clear()
+                    except Exception as exc:  # editing one's own copy failing is not this property's subject
+                        ctx.count("returned-state-edit-raised:" + type(exc).__name__)
     elif scen == "listener-reuse":
         # the same listener objects over three consecutive iterations of one object and across another object
         iq = [q for q in qs if q[0] == "i"]
